@@ -7,7 +7,8 @@
 (c) per form class: needs_filing is constant False for forms without a template (worksheets) and for InputForms,
     and total (never raises) on a solution that holds the lines it reads or not;
 (d) PDFFiller.fill: exactly {f : needs_filing(f)} is handed to _fill_form, once each, sorted by (jurisdiction, sequence_no)
-    - symbolic in the needs_filing answers, bounded in the number of forms (k <= 3, all orders).
+    - symbolic in the needs_filing answers, bounded in the number of forms (k <= 3, all orders);
+(e) PDFFiller.fill, loading loop: every section of the solution except DEFAULT goes to _add_form once (generic section name, z3).
 """
 import itertools
 import os
@@ -330,7 +331,7 @@ def native_pdf_field(mk, kind, param):
         def to_string(self, v):
             return self.s
     runs, bad = [], False
-    for s in ('abc', 'abcdefghij', 'NC', 'ZZ'):
+    for s in ('abc', 'abcdefghij', 'NC', 'ZZ', 'a    b    c', '  abcde  ', 'ab\ncd\nef', 'abcde\u00a0\u00a0'):
         o = mk()
         try:
             r = o.value(True, FO(s))
@@ -392,7 +393,7 @@ class NFValues(linevc.Acc):
 
 
 def fill_bounded():
-    """(d) PDFFiller.fill on the real code with stub forms: every subset of needing-filing answers and every order of k<=3 forms."""
+    """(d) PDFFiller.fill on the real code with stub form classes reached through the solution sections: every subset of needing-filing answers and every order of k<=3 forms."""
     from habutax import pdf_filler, values
     import configparser
     from habutax.form import Jurisdiction
@@ -404,23 +405,34 @@ def fill_bounded():
                 cases += 1
                 filled = []
 
-                class StubForm(object):
-                    form_name = 'form'          # instances of one form class share the class-level name
+                names = ['fa', 'fb:you', 'fc:0'][:k]          # plain and instanced section names, as the solver writes them
 
-                    def __init__(self, ix):
-                        self.ix = ix
-                        self.jurisdiction, self.sequence_no = keys[ix]
+                def stub(base):
+                    class StubForm(object):
+                        form_name = base
 
-                    def needs_filing(self, v):
-                        return needs[self.ix]
+                        def __init__(self, instance=None):
+                            self._instance = instance
+                            self.ix = names.index(self.name())
+                            self.jurisdiction, self.sequence_no = keys[self.ix]
 
-                    def name(self):
-                        return f'form:{self.ix}'
+                        def fields(self):
+                            return []
 
-                    def instance(self):
-                        return str(self.ix)
-                p = pdf_filler.PDFFiller(configparser.ConfigParser(), [], '/dev/null')
-                p.forms = [StubForm(ix) for ix in perm]
+                        def needs_filing(self, v):
+                            return needs[self.ix]
+
+                        def name(self):
+                            return base if self._instance is None else f'{base}:{self._instance}'
+
+                        def instance(self):
+                            return self._instance
+                    return StubForm
+                sol = configparser.ConfigParser()
+                for ix in perm:
+                    sol.add_section(names[ix])
+                # the forms come from the sections of the solution through the real _add_form (incl. 'form:instance' names)
+                p = pdf_filler.PDFFiller(sol, [stub(n.split(':')[0]) for n in names], '/dev/null')
                 files = []
                 p._fill_form = lambda form, fn: (filled.append(form.ix), files.append(fn))
                 import subprocess as sp
@@ -443,7 +455,95 @@ def fill_bounded():
                                clause=f'forms {list(perm)} with needs_filing {needs}: filled {filled}, expected {want}', witness={'order': list(perm), 'needs': list(needs)},
                                replay={'reproduced': True, 'filled': filled, 'expected': want})]
     return [Ob(id='C19/bounded/fill-selects-and-orders', backend='native', bounded=True, cases=cases, function='pdf_filler.py:PDFFiller.fill',
-               note='real fill() with stub forms: every subset x every order of up to 3 forms: exactly the forms needing filing, once each, sorted by (jurisdiction, sequence_no)')]
+               note='real fill() and _add_form with stub form classes and a solution whose sections are a plain and two instanced form names: every subset x every order of up to 3 forms: exactly the forms needing filing, once each, sorted by (jurisdiction, sequence_no)')]
+
+
+class _AfterLoad(Exception):
+    """Sentinel: the section loop of PDFFiller.fill has been executed for the generic section name."""
+
+
+def fill_loads_unit():
+    """(e) PDFFiller.fill, the loading loop, on the real code, for a generic section name n of the solution (any text, with or
+    without ':'): n is handed to _add_form exactly once unless n is ConfigParser's 'DEFAULT' pseudo-section.  Unbounded in the
+    number of sections (one symbolic iteration stands for each); _add_form itself is under C18/C14 contracts."""
+    from habutax import pdf_filler
+    fid = 'pdf_filler.py:PDFFiller.fill (loading loop)'
+    N = z3.String('section_name')
+
+    class Solution(corevc.Abstract):
+        def sym_iter(self, it, st, frame):
+            it.assign(st.target, SV('str', N), frame)
+            try:
+                it.exec_block(st.body, frame)
+            except sym._Continue:
+                pass
+            raise Raised(_AfterLoad())
+
+    class Spec(corevc.Spec):
+        def callee_contract(self, selfobj, func):
+            if func is pdf_filler.PDFFiller._add_form:
+                def c(it, me, args, kwargs, node):
+                    it.ghost.setdefault('added', []).append(args[0])
+                    return None
+                return c
+            return None
+    ex = sym.Explorer()
+
+    def thunk(run):
+        it = corevc.CoreInterp(run, Spec())
+        run.path.interp = it
+        me = AObj(pdf_filler.PDFFiller, {'_solution': Solution(), 'forms': []}, name='filler')
+        return it.call_function(pdf_filler.PDFFiller.fill, [me])
+    paths = ex.explore(thunk)
+    bad, n = None, 0
+    dflt = N == z3.StringVal('DEFAULT')
+    for p in paths:
+        hyp = p.conds + p.facts
+        if p.outcome[0] == 'unsupported':
+            bad = ('undecided', p.outcome[1])
+            break
+        if not (p.outcome[0] == 'raise' and isinstance(p.outcome[1], _AfterLoad)):
+            bad = ('refuted', f'the loading loop ends with {p.outcome}')
+            break
+        added = p.interp.ghost.get('added', [])
+        if not added:
+            if smt.prove(hyp, dflt)[0] != 'discharged':
+                bad = ('refuted', 'a section other than DEFAULT is not loaded')
+                break
+        elif not (len(added) == 1 and isinstance(added[0], SV) and smt.prove(hyp, z3.And(added[0].t == N, z3.Not(dflt)))[0] == 'discharged'):
+            bad = ('refuted', f'_add_form receives {added} for section n')
+            break
+        n += 1
+    oid = 'C19/fill/every-section-of-the-solution-is-loaded'
+    clause = 'for every section name n of the solution: _add_form(n) is called exactly once iff n is not DEFAULT (instanced names form:instance included)'
+    if bad is None and n >= 2:
+        return [Ob(id=oid, backend='symexec+z3', function=fid, clause=clause, vc=f'{n} path(s) of the generic iteration')]
+    rep = native_fill_loads() if bad and bad[0] == 'refuted' else {'reproduced': False}
+    return [Ob(id=oid, status=oblig.REFUTED if bad and bad[0] == 'refuted' else oblig.UNDECIDED, backend='symexec+z3', function=fid, clause='NOT: ' + clause,
+               solver_output=(bad or ('', f'vacuous: {n} path(s)'))[1], witness={'detail': (bad or ('', 'vacuous'))[1]}, replay=rep)]
+
+
+def native_fill_loads():
+    """Concretisation: the real fill() on a solution with sections 1040, 8889:you, w-2:0 and a recording _add_form."""
+    from habutax import pdf_filler
+    import configparser
+    import subprocess as sp
+    sol = configparser.ConfigParser()
+    names = ['1040', '8889:you', 'w-2:0', 'a.b', 'x y']
+    for nm in names:
+        sol.add_section(nm)
+    p = pdf_filler.PDFFiller(sol, [], os.devnull)
+    got = []
+    p._add_form = lambda nm: got.append(nm)
+    orig = sp.run
+    sp.run = lambda *a, **kw: None
+    try:
+        p.fill()
+    except BaseException as ex:
+        got.append(f'raised {type(ex).__name__}')
+    finally:
+        sp.run = orig
+    return {'reproduced': got != names, 'kind': 'fill-loads', 'sections': names, 'loaded': got}
 
 
 def reader_units():
@@ -462,7 +562,7 @@ def reader_units():
 
 
 def run(tier, seed, t0):
-    tasks = [Task('fdf', create_fdf), Task('fields', pdf_field_contracts), Task('bfdf', bounded_fdf, tier), Task('fill', fill_bounded)]
+    tasks = [Task('fdf', create_fdf), Task('fields', pdf_field_contracts), Task('bfdf', bounded_fdf, tier), Task('fill', fill_bounded), Task('fill/loads', fill_loads_unit)]
     tasks += [Task(f'nf/{y}', needs_filing_classes, y) for y in extract.YEARS]
     tasks += [Task('reader/fill_pdfs', reader_units)]
     obs = oblig.run_tasks(tasks)
